@@ -87,6 +87,15 @@ class PipeCore(object):
                 raise self.exc_timeout('injected timeout at call %d (%s)' % (k, kind))
             if f == 'reset':
                 raise SimReset('injected reset at call %d (%s)' % (k, kind))
+            if f == 'epipe':
+                import errno
+                raise BrokenPipeError(errno.EPIPE, 'injected broken pipe at call %d (%s)' % (k, kind))     # what a socket raises once the peer has gone away
+            if f == 'oserr':
+                import errno
+                raise OSError(errno.EIO, 'injected I/O error at call %d (%s)' % (k, kind))
+            if f == 'usb':
+                from adb_shell import exceptions as _e
+                raise (_e.UsbReadFailedError('injected', None) if kind == 'bulk_read' else _e.UsbWriteFailedError('injected usb failure at call %d (%s)' % (k, kind)))
             if f == 'cancel':
                 if kind == 'bulk_write':
                     return 'cancel_after'           # the bytes are handed over, the cancellation arrives while waiting for the drain
